@@ -12,8 +12,8 @@ CONSTANTS
  MaxByz = 0
  Faults <- FNone
  MaxFault = 0
- Tampers <- TGroups
- MaxTamper = 1
+ Tampers <- TNone
+ MaxTamper = 0
  Plants <- PSome
  MaxPlant = 1
  Ticks <- TkNone
